@@ -730,10 +730,17 @@ class _GenerateRenderMethod:
 
         self.printer.writeline("def %s(%s):" % (name, ",".join(args)))
 
-        # form "arg1, arg2, arg3=arg3, arg4=arg4", etc.
-        pass_args = [
-            "%s=%s" % ((a.split("=")[0],) * 2) if "=" in a else a for a in args
-        ]
+        # form "arg1, arg2, arg3=arg3, arg4=arg4", etc.; arguments that
+        # follow *args are keyword-only and are passed by keyword
+        pass_args = []
+        kwonly = False
+        for a in args:
+            if "=" in a or (kwonly and not a.startswith("*")):
+                pass_args.append("%s=%s" % ((a.split("=")[0],) * 2))
+            else:
+                pass_args.append(a)
+            if a.startswith("*") and not a.startswith("**"):
+                kwonly = True
 
         self.write_variable_declares(
             identifiers,
